@@ -44,6 +44,17 @@ func (sa *Safe) step(fr *frame, st *State, ins ssa.Instruction) {
 			sa.storePath(st, o, "", z)
 		}
 		if arr, ok := elem.Underlying().(*types.Array); ok && arr.Len() <= 64 {
+			if _, isPtr := arr.Elem().Underlying().(*types.Pointer); isPtr {
+				// small arrays of pointers (varargs of addresses): every element starts nil and is
+				// tracked, so that an element read at an unknown index is nil only if one of them is
+				for k := int64(0); k < arr.Len(); k++ {
+					sa.storePath(st, o, fmt.Sprintf("[%d]", k), sa.zero(st, arr.Elem()))
+				}
+				if sa.fullyInit == nil {
+					sa.fullyInit = map[*AObj]bool{}
+				}
+				sa.fullyInit[o] = true
+			}
 			if _, isInt := intRange(arr.Elem()); isInt {
 				for k := int64(0); k < arr.Len(); k++ {
 					sa.storePath(st, o, fmt.Sprintf("[%d]", k), AVal{Kind: avInt, Lin: linConst(0), Type: arr.Elem()})
